@@ -94,6 +94,15 @@ func fpWrap(ctx string, fs []string, path string) (text, file string) {
 	return "", ""
 }
 
+// the re-definition as a form that runs: a declared variable cannot be declared again
+// with another type (the noop family's re-definition of it never runs), it is assigned
+func fpRedef(d noopDef) string {
+	if d.name == "var" {
+		return `(set u%d 7)`
+	}
+	return d.redef
+}
+
 func noopDefByName(n string) noopDef {
 	for _, d := range noopDefs {
 		if d.name == n {
@@ -110,7 +119,7 @@ func runFailPoint(id string, uid int, ctx, failKind string, k int, defs []string
 		d := noopDefByName(dn)
 		if hasSet {
 			c.Setup += inst(d.setup, uid) + "\n"
-			c.Forms = append(c.Forms, inst(d.redef, uid))
+			c.Forms = append(c.Forms, inst(fpRedef(d), uid))
 		} else {
 			// without set-up the forms are the first definitions of the names
 			c.Forms = append(c.Forms, inst(d.setup, uid))
